@@ -34,6 +34,9 @@ uint32_t generate_seed(uint32_t seed) {
     uint32_t a = 0x7AFB2C23ULL;
     uint32_t c = 0x894C3ULL;
     uint32_t new_seed = (a * seed + c);
+    /* 0 means "not seeded yet" to rand_/randInt/randDouble (they would reseed from the clock): step over it */
+    if(new_seed == 0)
+      new_seed = c;
     return new_seed;
 }
 
